@@ -198,3 +198,38 @@ Fixpoint ref (f : nat) (i : nat) (ts : list tok) {struct f} : option expr :=
 
 Definition ref_parse (ts : list tok) : option expr :=
   if balanced ts 0 then ref (4 * length ts + 4) 3 ts else None.
+
+(* ---------- what is accepted at all ("no junk") ----------
+   SpellsL is the grammar above with the two leniencies of the implementation made explicit:
+   a reserved word may stand for a name (the implementation reads "not", "a and not" that way when
+   the operator reading fails), and "of" may be fused with a pattern that starts with '*'.
+   Names and patterns carry their lexical conditions here. *)
+Inductive SpellsL : nat -> list tok -> expr -> Prop :=
+| spl_id n : is_ident n = true -> SpellsL 0 [TW n] (EId n)
+| spl_sel q p : is_pat p = true -> SpellsL 0 [TW (qword q); TW w_of; TW p] (ESel q p)
+| spl_sel_fused q p' : forallb is_patc p' = true ->
+    SpellsL 0 [TW (qword q); TW (w_of ++ c_star :: p')] (ESel q (c_star :: p'))
+| spl_par ts e : SpellsL 3 ts e -> SpellsL 0 (TL :: ts ++ [TR]) e
+| spl_not ts e : SpellsL 1 ts e -> SpellsL 1 (TW w_not :: ts) (ENot e)
+| spl_and ts1 ts2 a b : SpellsL 2 ts1 a -> SpellsL 1 ts2 b -> SpellsL 2 (ts1 ++ TW w_and :: ts2) (EAnd a b)
+| spl_or ts1 ts2 a b : SpellsL 3 ts1 a -> SpellsL 2 ts2 b -> SpellsL 3 (ts1 ++ TW w_or :: ts2) (EOr a b)
+| spl_up i ts e : SpellsL i ts e -> SpellsL (S i) ts e.
+
+Definition SpellsLenient (s : str) (e : expr) : Prop :=
+  exists ts, Lay false ts s /\ SpellsL 3 ts e.
+
+(* the expression an (n-ary) parse tree stands for: same-operator runs associate to the left *)
+Fixpoint unflat (t : ptree) : expr :=
+  match t with
+  | PId n => EId n
+  | PSel q p => ESel q p
+  | PNot a => ENot (unflat a)
+  | PAnd l => match l with
+              | [] => EId []
+              | x :: r => fold_left (fun a y => EAnd a (unflat y)) r (unflat x)
+              end
+  | POr l => match l with
+             | [] => EId []
+             | x :: r => fold_left (fun a y => EOr a (unflat y)) r (unflat x)
+             end
+  end.
